@@ -91,6 +91,7 @@ pub struct Plan {
   pub real_sleep: bool,       // let small time-outs really elapse, and dawdle now and then
   pub max_calls: usize,
   pub fault_at: Option<usize>,
+  pub max_batch: usize,       // largest number of key events that arrive together (one readiness notification)
 }
 
 pub struct SimDriver {
@@ -99,7 +100,7 @@ pub struct SimDriver {
   tfuture: VecDeque<bool>, tqueue: VecDeque<bool>, tready: bool, tends: bool, tgone: bool,
   interrupts_left: usize, consecutive_ok: bool, last_was_interrupt: bool,
   p_tick: u64, ticks_left: usize, spurious: bool, real_sleep: bool, slept_ns: u64,
-  max_calls: usize, fault_at: Option<usize>,
+  max_calls: usize, fault_at: Option<usize>, max_batch: usize,
   pub recs: Vec<Rec>,
   pub unread_at_exit: usize,
 }
@@ -112,7 +113,7 @@ impl SimDriver {
       tfuture: plan.thist.iter().cloned().collect(), tqueue: VecDeque::new(), tready: false, tends: plan.tends, tgone: false,
       interrupts_left: plan.max_interrupts, consecutive_ok: plan.consecutive_interrupts_ok, last_was_interrupt: false,
       p_tick: plan.p_tick, ticks_left: plan.max_ticks, spurious: plan.spurious_idle_timeouts, real_sleep: plan.real_sleep, slept_ns: 0,
-      max_calls: plan.max_calls, fault_at: plan.fault_at,
+      max_calls: plan.max_calls, fault_at: plan.fault_at, max_batch: plan.max_batch,
       recs: vec![], unread_at_exit: 0,
     }
   }
@@ -121,7 +122,7 @@ impl SimDriver {
   fn arrive_kbd(&mut self) -> bool {
     if self.kgone { return false; }
     if !self.kfuture.is_empty() {
-      let n = 1 + self.rng.below(8);
+      let n = 1 + self.rng.below(self.max_batch.max(1));
       for _ in 0..n { if let Some(e) = self.kfuture.pop_front() { self.kqueue.push_back(e); } }
       self.kready = true;
       true
@@ -527,6 +528,7 @@ fn make_cases(seed: u64, thorough: bool, scale: usize) -> Vec<CaseSpec> {
         real_sleep: mode == 1 || crng.chance(1, 12),
         max_calls: 400,
         fault_at: None,
+        max_batch: 8,
       };
       cases.push(CaseSpec { tag: l.tag.clone(), mappings: l.mappings.clone(), plan, seed: cseed, inject_all: (li + r) % (if thorough { 4 } else { 9 }) == 0 });
     }
@@ -545,9 +547,28 @@ fn make_cases(seed: u64, thorough: bool, scale: usize) -> Vec<CaseSpec> {
         tends: false,
         max_interrupts: 1, consecutive_interrupts_ok: false,
         p_tick: 50, max_ticks: 10, spurious_idle_timeouts: true, real_sleep: false,
-        max_calls: 1500, fault_at: None,
+        max_calls: 1500, fault_at: None, max_batch: 8,
       };
       cases.push(CaseSpec { tag: l.tag.clone(), mappings: l.mappings.clone(), plan, seed: cseed, inject_all: false });
+    }
+  }
+  // bursts: hundreds of key events arriving under ONE readiness notification (a stalled process, a macro
+  // keyboard): the read loop must drain them all before it polls again
+  for (bi, l) in fixed_layouts().into_iter().enumerate() {
+    for r in 0..(if thorough { 4 } else { 2 }) {
+      let cseed = rng.next();
+      let mut crng = Rng::new(cseed);
+      let hlen = 150 + crng.below(if thorough { 900 } else { 350 });
+      let plan = Plan {
+        khist: history(&l.mappings, &mut crng, hlen),
+        kends: r % 2 == 0,
+        thist: tablet_history(&mut crng, if (bi + r) % 3 == 0 { 1 } else { 0 }),
+        tends: false,
+        max_interrupts: 0, consecutive_interrupts_ok: false,
+        p_tick: 0, max_ticks: 3, spurious_idle_timeouts: false, real_sleep: false,
+        max_calls: 6000, fault_at: None, max_batch: [70usize, 130, 300, 1100][crng.below(4)],
+      };
+      cases.push(CaseSpec { tag: format!("{}/burst", l.tag), mappings: l.mappings.clone(), plan, seed: cseed, inject_all: false });
     }
   }
   // negative interval: `next_wakeup + interval as u64` overflows Instant after about 500 ticks
@@ -556,7 +577,7 @@ fn make_cases(seed: u64, thorough: bool, scale: usize) -> Vec<CaseSpec> {
       repeat: Repeat::Special { keys: vec![key(F20)], delay_ms: 400, interval_ms: -1 }, absorbing: vec![] }];
     let plan = Plan { khist: vec![Event::Pressed(key(A))], kends: false, thist: vec![], tends: false, max_interrupts: 0,
       consecutive_interrupts_ok: false, p_tick: 100, max_ticks: 600, spurious_idle_timeouts: false, real_sleep: false,
-      max_calls: 2000, fault_at: None };
+      max_calls: 2000, fault_at: None, max_batch: 8 };
     cases.push(CaseSpec { tag: "fixed/negative-interval".to_string(), mappings, plan, seed: 77, inject_all: false });
   }
   // two consecutive interruptions make the real loop sleep 4 s: thorough tier only
@@ -564,7 +585,7 @@ fn make_cases(seed: u64, thorough: bool, scale: usize) -> Vec<CaseSpec> {
     let mappings = vec![Mapping { from: vec![key(A)], to: vec![key(B)], repeat: Repeat::Normal, absorbing: vec![] }];
     let plan = Plan { khist: vec![Event::Pressed(key(A)), Event::Released(key(A))], kends: true, thist: vec![], tends: false, max_interrupts: 2,
       consecutive_interrupts_ok: true, p_tick: 0, max_ticks: 0, spurious_idle_timeouts: false, real_sleep: false,
-      max_calls: 100, fault_at: None };
+      max_calls: 100, fault_at: None, max_batch: 8 };
     for s in 0..6 { cases.push(CaseSpec { tag: "fixed/two-interrupts".to_string(), mappings: mappings.clone(), plan: plan_copy(&plan), seed: 1000 + s, inject_all: false }); }
   }
   cases
@@ -573,7 +594,7 @@ fn make_cases(seed: u64, thorough: bool, scale: usize) -> Vec<CaseSpec> {
 fn plan_copy(p: &Plan) -> Plan {
   Plan { khist: p.khist.clone(), kends: p.kends, thist: p.thist.clone(), tends: p.tends, max_interrupts: p.max_interrupts,
     consecutive_interrupts_ok: p.consecutive_interrupts_ok, p_tick: p.p_tick, max_ticks: p.max_ticks,
-    spurious_idle_timeouts: p.spurious_idle_timeouts, real_sleep: p.real_sleep, max_calls: p.max_calls, fault_at: p.fault_at }
+    spurious_idle_timeouts: p.spurious_idle_timeouts, real_sleep: p.real_sleep, max_calls: p.max_calls, fault_at: p.fault_at, max_batch: p.max_batch }
 }
 
 // tm-harness loop-script --out DIR --seed N --tier quick|thorough [--shards K] [--scale S]
